@@ -835,7 +835,11 @@ func (e *encoderSimpleBytes) kMapCanonical(ti *typeInfo, rv, rvv reflect.Value, 
 			for i := range mksv {
 				e.c = containerMapKey
 				e.e.WriteMapElemKey(i == 0)
-				e.e.EncodeTime(mksv[i].v)
+				if e.h.timeBuiltin {
+					e.e.EncodeTime(mksv[i].v)
+				} else {
+					e.encodeValue(mksv[i].r, keyFn)
+				}
 				e.mapElemValue()
 				e.encodeValue(mapGet(rv, mksv[i].r, rvv, mparams), valFn)
 			}
@@ -998,7 +1002,11 @@ func (e *encoderSimpleBytes) encodeBuiltin(iv interface{}) (ok bool) {
 	case complex128:
 		e.encodeComplex128(v)
 	case time.Time:
-		e.e.EncodeTime(v)
+		if e.h.timeBuiltin {
+			e.e.EncodeTime(v)
+		} else {
+			e.encodeR(reflect.ValueOf(v))
+		}
 	case []byte:
 		e.e.EncodeBytes(v)
 	default:
@@ -2692,7 +2700,11 @@ func (d *decoderSimpleBytes) decode(iv interface{}) {
 
 		d.decodeBytesInto(v[:len(v):len(v)], true)
 	case *time.Time:
-		*v = d.d.DecodeTime()
+		if d.h.timeBuiltin {
+			*v = d.d.DecodeTime()
+		} else {
+			d.decodeValue(reflect.ValueOf(v), nil)
+		}
 	case *Raw:
 		*v = d.rawBytes()
 
@@ -4631,7 +4643,11 @@ func (e *encoderSimpleIO) kMapCanonical(ti *typeInfo, rv, rvv reflect.Value, key
 			for i := range mksv {
 				e.c = containerMapKey
 				e.e.WriteMapElemKey(i == 0)
-				e.e.EncodeTime(mksv[i].v)
+				if e.h.timeBuiltin {
+					e.e.EncodeTime(mksv[i].v)
+				} else {
+					e.encodeValue(mksv[i].r, keyFn)
+				}
 				e.mapElemValue()
 				e.encodeValue(mapGet(rv, mksv[i].r, rvv, mparams), valFn)
 			}
@@ -4794,7 +4810,11 @@ func (e *encoderSimpleIO) encodeBuiltin(iv interface{}) (ok bool) {
 	case complex128:
 		e.encodeComplex128(v)
 	case time.Time:
-		e.e.EncodeTime(v)
+		if e.h.timeBuiltin {
+			e.e.EncodeTime(v)
+		} else {
+			e.encodeR(reflect.ValueOf(v))
+		}
 	case []byte:
 		e.e.EncodeBytes(v)
 	default:
@@ -6488,7 +6508,11 @@ func (d *decoderSimpleIO) decode(iv interface{}) {
 
 		d.decodeBytesInto(v[:len(v):len(v)], true)
 	case *time.Time:
-		*v = d.d.DecodeTime()
+		if d.h.timeBuiltin {
+			*v = d.d.DecodeTime()
+		} else {
+			d.decodeValue(reflect.ValueOf(v), nil)
+		}
 	case *Raw:
 		*v = d.rawBytes()
 
